@@ -417,8 +417,8 @@ def contracts(reg):
             return z3.And(k.length != 16, k.length != 24, k.length != 32)
         return z3.BoolVal(len(k.items) not in (16, 24, 32))
 
-    out.append(FnContract(
-        target=f"{AES}::_expand_key",
+    out.append(role_contract_for(
+        "_expand_key",
         params=[("key", p_alts(p_bytes(16), p_bytes(24), p_bytes(32),
                                p_sym_bytes(lambda n: z3.And(n != 16, n != 24, n != 32), "bytes of any other length")))],
         returns=ke_returns,
@@ -454,13 +454,13 @@ def contracts(reg):
         return r
 
     from contracts import c20_modes as _M
-    out.append(FnContract(
-        target=f"{AES}::_aes_encrypt_block", params=blk_params(),
+    out.append(role_contract_for(
+        "_aes_encrypt_block", params=blk_params(),
         returns=opaque_or(lambda c: VBytes(vb(cipher(terms(c.args["block"].items), rk_terms(c, "round_keys")))), _M.CIPH),
         ensures=[("only-16-byte-blocks", lambda c: z3.Not(bad_block(c)))],
         raises=[Raises("ValueError", when=bad_block)]))
-    out.append(FnContract(
-        target=f"{AES}::_aes_decrypt_block", params=blk_params(),
+    out.append(role_contract_for(
+        "_aes_decrypt_block", params=blk_params(),
         returns=opaque_or(lambda c: VBytes(vb(inv_cipher(terms(c.args["block"].items), rk_terms(c, "round_keys")))), _M.DECIPH),
         ensures=[("only-16-byte-blocks", lambda c: z3.Not(bad_block(c)))],
         raises=[Raises("ValueError", when=bad_block)]))
@@ -468,14 +468,126 @@ def contracts(reg):
     # private helpers are under contract for modularity only: where a helper was renamed / inlined / deleted, its callers are
     # verified with whatever they call now (functions without contract are executed in place)
     have = loader.module(AES).functions
-    return [c for c in out if not (c.target.split("::")[-1] in OPTIONAL_HELPERS and c.target.split("::")[-1] not in have)]
+    out = [c for c in out if not (c.target.split("::")[-1] in OPTIONAL_HELPERS and c.target.split("::")[-1] not in have)]
+    return [bind_by_position(c) for c in out]
 
 
 OPTIONAL_HELPERS = {"_xtime", "_gf_mul", "_build_mul_table", "_add_round_key", "_sub_bytes", "_inv_sub_bytes", "_shift_rows", "_inv_shift_rows",
                     "_mix_columns", "_inv_mix_columns", "_build_rcon", "_rcon", "_rot_word", "_sub_word", "_chunks"}
 
 
+ROLE_NAMES = ("aes_ecb_encrypt", "aes_ecb_decrypt", "aes_cbc_encrypt", "aes_cbc_decrypt", "_get_round_keys", "_expand_key",
+              "_aes_encrypt_block", "_aes_decrypt_block", "_pkcs7_pad", "_pkcs7_unpad")
+_ROLES = {}
+
+
+def roles_of(repo=None):
+    """{role: (qualname, guessed)} -- which function of the module plays each role of the specification.  A role is named after
+    the function that plays it in the unchanged tree; while a function of that name exists it IS the role (guessed=False).  When
+    the name is gone (renamed function), the role is found by the DATA FLOW of the real code: the drivers are the functions the
+    installation code binds to pypdf's names; the block functions are what the ECB drivers call per block; the round-key
+    provider is the call whose result the drivers hand to the block function; key expansion is the one-argument function the
+    provider calls; pad / unpad are the two-argument helpers the CryptAES methods call.  A role found that way is a guess:
+    a failed VC of its contract is never a violation by itself (post_report: unknown, the native replayer decides)."""
+    import ast
+    key = repo or loader.REPO
+    if key in _ROLES:
+        return _ROLES[key]
+    from contracts import c20_modes as M
+    m = loader.module(AES, repo)
+    F = m.functions
+    res = {r: (r, False) for r in ROLE_NAMES if r in F}
+
+    def calls_in(fn):
+        """[(callee name, call node, inside a loop body / comprehension element)] for calls of module functions"""
+        out = []
+
+        def walk(n, inl):
+            if isinstance(n, (ast.FunctionDef, ast.Lambda)) and n is not fn:
+                return
+            if isinstance(n, ast.Call) and isinstance(n.func, ast.Name) and n.func.id in F:
+                out.append((n.func.id, n, inl))
+            if isinstance(n, (ast.For, ast.While)):
+                walk(n.iter if isinstance(n, ast.For) else n.test, inl)
+                for ch in n.body + n.orelse:
+                    walk(ch, True)
+                return
+            if isinstance(n, (ast.ListComp, ast.GeneratorExp, ast.SetComp)):
+                walk(n.elt, True)
+                for g in n.generators:
+                    walk(g.iter, inl)
+                return
+            for ch in ast.iter_child_nodes(n):
+                walk(ch, inl)
+        walk(fn, False)
+        return out
+
+    try:
+        if any(r not in res for r in ROLE_NAMES):
+            r_ = M.run_install_site(repo)
+            for (st, val) in r_.get("outcomes", []):
+                if isinstance(val, VBool) and z3.is_true(z3.simplify(val.t)):
+                    mods = st.ghost.get("pypdf-modules", {})
+                    for d in ROLE_NAMES[:4]:
+                        got = {M.func_qualname(r_, st.obj(ref).data.get(d)) for ref in mods.values() if d in st.obj(ref).data}
+                        if d not in res and len(got) == 1 and None not in got:
+                            res[d] = (next(iter(got)), True)
+            for drv, role in (("aes_ecb_encrypt", "_aes_encrypt_block"), ("aes_ecb_decrypt", "_aes_decrypt_block")):
+                if drv in res and (role not in res or "_get_round_keys" not in res):
+                    fn = F[res[drv][0]]
+                    per_block = [(n, c) for (n, c, inl) in calls_in(fn) if inl and len(c.args) == 2 and not c.keywords]
+                    if len({n for n, _c in per_block}) == 1:
+                        bname, bcall = per_block[0]
+                        if role not in res:
+                            res[role] = (bname, True)
+                        rk = bcall.args[1]
+                        if "_get_round_keys" not in res and isinstance(rk, ast.Name):
+                            srcs = {a_.value.func.id for a_ in ast.walk(fn) if isinstance(a_, ast.Assign) and len(a_.targets) == 1
+                                    and isinstance(a_.targets[0], ast.Name) and a_.targets[0].id == rk.id and isinstance(a_.value, ast.Call)
+                                    and isinstance(a_.value.func, ast.Name) and a_.value.func.id in F}
+                            if len(srcs) == 1:
+                                res["_get_round_keys"] = (next(iter(srcs)), True)
+            if "_expand_key" not in res and "_get_round_keys" in res:
+                me = res["_get_round_keys"][0]
+                one = {n for (n, c, _i) in calls_in(F[me]) if len(c.args) == 1 and not c.keywords and n != me}
+                if len(one) == 1:
+                    res["_expand_key"] = (next(iter(one)), True)
+            if "_pkcs7_pad" not in res or "_pkcs7_unpad" not in res:
+                meth = M.installed_methods(repo)
+
+                def two(q):
+                    return {n for (n, c, _i) in calls_in(F[q]) if len(c.args) == 2 and not c.keywords
+                            and isinstance(c.args[1], ast.Constant) and c.args[1].value == 16} if q in F else set()
+                e2, d2 = two(meth.get("encrypt", "")), two(meth.get("decrypt", ""))
+                if "_pkcs7_pad" not in res and len(e2) == 1:
+                    res["_pkcs7_pad"] = (next(iter(e2)), True)
+                pad = res.get("_pkcs7_pad", (None,))[0]
+                if "_pkcs7_unpad" not in res and len(d2 - {pad}) == 1:
+                    res["_pkcs7_unpad"] = (next(iter(d2 - {pad})), True)
+    except Exception:  # noqa -- role discovery is best effort; an unresolved role is `contract-target-missing` (undecided)
+        pass
+    for r in ROLE_NAMES:
+        res.setdefault(r, (r, False))
+    _ROLES[key] = res
+    return res
+
+
+def role_contract_for(role, **kw):
+    """FnContract of the function that plays `role` (obligation ids keep the role name)"""
+    q, guessed = roles_of()[role]
+    c = FnContract(target=f"{AES}::{q}", **kw)
+    c.oid_name = role
+    c.role = role
+    c.role_guessed = guessed
+    return c
+
+
+def rq(role):
+    return roles_of()[role][0]
+
+
 def p_definition_time_default(fnode, expr):
+
     """An optional parameter the property's callers never pass: its value is the DEFAULT, which Python evaluates ONCE, when the
     `def` statement runs -- i.e. before the entry state of every call (PY-DEFAULT).  Whatever the default expression calls
     (e.g. a randomness source) is therefore logged in the ENTRY state's ghost log, not inside the call."""
@@ -506,19 +618,29 @@ def p_unsupported(why):
 
 
 def sig_params(qual, roles):
-    """Contract parameters read from the REAL signature: the parameters the property talks about are bound by name (`roles`),
-    any further parameter must have a default (the property's callers -- pypdf -- never pass it) and is bound to that default."""
+    """Contract parameters read from the REAL signature.  `roles` (ordered) are the parameters the property talks about: each is
+    bound to the real parameter of the same name, or -- when the signature has no such name -- to the real parameter at the same
+    POSITION (a renamed parameter; the clauses keep using the role name, see bind_by_position).  Any further real parameter must
+    have a default (the property's callers -- pypdf -- never pass it) and is bound to that default."""
     fnode = loader.module(AES).functions.get(qual)
     if fnode is None:
         return list(roles.items())
     a = fnode.args
     pos = a.posonlyargs + a.args
+    real = [x.arg for x in pos + a.kwonlyargs]
     dflt = dict(zip([x.arg for x in pos[len(pos) - len(a.defaults):]], a.defaults))
     dflt.update({x.arg: d for x, d in zip(a.kwonlyargs, a.kw_defaults) if d is not None})
+    rnames = list(roles)
+    by_pos = {}                      # real name -> role name, for roles whose name is gone
+    for i, r in enumerate(rnames):
+        if r not in real and i < len(pos) and pos[i].arg not in roles and pos[i].arg not in dflt:
+            by_pos[pos[i].arg] = r
     out = []
     for x in pos + a.kwonlyargs:
         if x.arg in roles:
             out.append((x.arg, roles[x.arg]))
+        elif x.arg in by_pos:
+            out.append((by_pos[x.arg], roles[by_pos[x.arg]]))          # role name; bind_by_position renames it to the real one
         elif x.arg in dflt:
             out.append((x.arg, p_definition_time_default(fnode, dflt[x.arg])))
         else:
@@ -527,6 +649,73 @@ def sig_params(qual, roles):
     for n in missing:
         out.append((n, p_unsupported(f"{qual}: parameter `{n}` no longer exists")))
     return out
+
+
+def bind_by_position(c):
+    """A contract names its parameters by ROLE.  Where the real function calls the parameter at that position differently (a
+    renamed parameter), the contract is bound to the real name (the body is executed with the real names) and every clause
+    still sees the role name: clause contexts get the role names as extra keys of `args`."""
+    import copy
+    qual = c.target.split("::")[-1]
+    fnode = loader.module(AES).functions.get(qual)
+    if fnode is None:
+        return c
+    real = [x.arg for x in fnode.args.posonlyargs + fnode.args.args]
+    names = [n for n, _m in c.params]
+    alias = {}
+    params = []
+    for i, (n, mk) in enumerate(c.params):
+        if n not in real and i < len(real) and real[i] not in names:
+            alias[n] = real[i]
+            params.append((real[i], mk))
+        else:
+            params.append((n, mk))
+    if not alias:
+        return c
+    c.params = params
+    c.aliases = alias
+
+    def ctx_of(cx):
+        c2 = copy.copy(cx)
+        c2.args = dict(cx.args)
+        for role, rn in alias.items():
+            if rn in cx.args:
+                c2.args[role] = cx.args[rn]
+        return c2
+
+    def wrap(fn):
+        if fn is None:
+            return None
+
+        def w(cx):
+            c2 = ctx_of(cx)
+            r = fn(c2)
+            if getattr(c2, "note", None):
+                cx.note = c2.note
+            return r
+        return w
+    c.requires, c.hyps, c.returns = wrap(c.requires), wrap(c.hyps), wrap(c.returns)
+    c.ensures = [(lb, wrap(f)) for lb, f in c.ensures]
+    c.exc_ensures = [(lb, wrap(f)) for lb, f in c.exc_ensures]
+    for r in c.raises:
+        r.when = wrap(r.when)
+    c.final = {alias.get(k, k): wrap(f) for k, f in c.final.items()}
+    c.modifies = tuple(alias.get(k, k) for k in c.modifies)
+    if c.result_maker is not None:
+        rm = c.result_maker
+        c.result_maker = lambda ex, st, cx: rm(ex, st, ctx_of(cx))
+    if c.decreases is not None:
+        c.decreases = wrap(c.decreases)
+    return c
+
+
+def param(lc, role):
+    """entry value of the parameter with this role (loop invariants)"""
+    real = getattr(lc.ex.contract, "aliases", {}).get(role, role)
+    v = lc.entry.lookup(real)
+    if v is None:
+        raise ops.Unsupported(f"parameter `{role}` not found")
+    return v
 
 
 def mode_contracts(reg):
@@ -562,8 +751,8 @@ def mode_contracts(reg):
         return z3.And(n != 16, n != 24, n != 32)
 
     KEY = M.p_symbytes(desc="key: bytes of any length")
-    out.append(FnContract(
-        target=f"{AES}::_get_round_keys", params=sig_params("_get_round_keys", {"key": KEY}),
+    out.append(role_contract_for(
+        "_get_round_keys", params=sig_params(rq("_get_round_keys"), {"key": KEY}),
         returns=lambda c: VExt("RoundKeys", kexp_of(c.args["key"])),
         ensures=[("only-valid-key-lengths", lambda c: z3.Not(bad_len(c.args["key"].length)))],
         raises=[Raises("ValueError", when=lambda c: bad_len(c.args["key"].length))],
@@ -592,8 +781,8 @@ def mode_contracts(reg):
         return z3.And(rn == n + p, M.seq_eq(n, ra, n, a),                                   # the data, unchanged, ...
                       M.seq_eq(p, M.view(ra, n), p, z3.K(I, z3.Int2BV(p, 8))))              # ... followed by p bytes of value p
 
-    out.append(FnContract(
-        target=f"{AES}::_pkcs7_pad", params=sig_params("_pkcs7_pad", {"data": DATA, "block_size": p_const(16)}),
+    out.append(role_contract_for(
+        "_pkcs7_pad", params=sig_params(rq("_pkcs7_pad"), {"data": DATA, "block_size": p_const(16)}),
         ensures=[("data-followed-by-p-bytes-of-value-p", pad_post)],
         result_maker=fresh_bytes("padded"),
         note="p = 16 - len(data) % 16 in 1..16",
@@ -616,8 +805,8 @@ def mode_contracts(reg):
         stripped = z3.And(valid_padding(c), rn == n - p, M.seq_eq(rn, ra, rn, a))
         return z3.If(n == 0, rn == 0, stripped)
 
-    out.append(FnContract(
-        target=f"{AES}::_pkcs7_unpad", params=sig_params("_pkcs7_unpad", {"data": DATA, "block_size": p_const(16)}),
+    out.append(role_contract_for(
+        "_pkcs7_unpad", params=sig_params(rq("_pkcs7_unpad"), {"data": DATA, "block_size": p_const(16)}),
         ensures=[("removes-exactly-the-padding", unpad_post)],
         result_maker=fresh_bytes("unpadded"),
         raises=[Raises("ValueError", when=lambda c: z3.And(c.args["data"].length > 0, z3.Not(valid_padding(c))))],
@@ -712,12 +901,12 @@ def mode_contracts(reg):
 
     def ecb_contract(name, fns):
         def inv(lc):
-            n, a = M.arr_of(lc.entry.lookup("data"))
+            n, a = M.arr_of(param(lc, "data"))
             on, oa = out_buffer(lc)
             return z3.And(counters_ok(lc), on == n)
 
         def inv_point(lc, j):
-            n, a = M.arr_of(lc.entry.lookup("data"))
+            n, a = M.arr_of(param(lc, "data"))
             on, oa = out_buffer(lc)
             return M.ecb_at(fns, round_keys_of(lc), a, oa, lc.i, j)
 
@@ -729,8 +918,8 @@ def mode_contracts(reg):
         def bad(c):
             return z3.Or(c.args["data"].length % 16 != 0, bad_len(c.args["key"].length))
 
-        return FnContract(
-            target=f"{AES}::{name}", params=sig_params(name, {"key": KEY, "data": DATA}),
+        return role_contract_for(
+            name, params=sig_params(rq(name), {"key": KEY, "data": DATA}),
             ensures=[("every-block-is-the-block-cipher-of-the-corresponding-input-block", post), ("lengths-valid", lambda c: z3.Not(bad(c)))],
             raises=[Raises("ValueError", when=bad)],
             loops={0: LoopSpec(inv=inv, inv_point=inv_point, label="blocks")},
@@ -761,8 +950,8 @@ def mode_contracts(reg):
         at = M.cbc_enc_at if enc else M.cbc_dec_at
 
         def parts(lc):
-            n, a = M.arr_of(lc.entry.lookup("data"))
-            _ivn, iva = M.arr_of(lc.entry.lookup("iv"))
+            n, a = M.arr_of(param(lc, "data"))
+            _ivn, iva = M.arr_of(param(lc, "iv"))
             on, oa = out_buffer(lc)
             return n, a, iva, on, oa
 
@@ -790,8 +979,8 @@ def mode_contracts(reg):
         def bad(c):
             return z3.Or(c.args["iv"].length != 16, c.args["data"].length % 16 != 0, bad_len(c.args["key"].length))
 
-        return FnContract(
-            target=f"{AES}::{name}", params=sig_params(name, {"key": KEY, "iv": IV, "data": DATA}),
+        return role_contract_for(
+            name, params=sig_params(rq(name), {"key": KEY, "iv": IV, "data": DATA}),
             ensures=[("cbc-chaining-equation-for-every-block", post), ("lengths-valid", lambda c: z3.Not(bad(c)))],
             raises=[Raises("ValueError", when=bad)],
             loops={0: LoopSpec(inv=inv, inv_point=inv_point, label="blocks", rebind="carried-16-byte-blocks")},
@@ -1064,10 +1253,21 @@ def post_report(contract, rep):
     """`iv-is-drawn-...` is a SUFFICIENT condition for freshness (the IV *is* a draw made inside the call); an IV computed
     from such a draw in some other way makes the solver refute the clause without being a counterexample to the property:
     such a model is downgraded to `unknown`, the native replayer (IVs of several calls compared) decides."""
+    for role, real in getattr(contract, "aliases", {}).items():
+        for o in rep.obligations:            # ids name the ROLE of a parameter, not what the code calls it
+            for kind in ("modifies", "final"):
+                if o["id"].endswith(f"/{kind}#{real}"):
+                    o["id"] = o["id"][:-len(real)] + role
     if contract.target.split("::")[-1] in OPTIONAL_HELPERS:
         for o in rep.obligations:
             o["volatile"] = True          # exists only while the helper exists (not locked; the callers' obligations are)
-    if contract.target.split("::")[-1] in DRIVERS:
+    if getattr(contract, "role_guessed", False):
+        # the function was matched to its role by the call graph, not by its name: a failed VC may mean a wrong match
+        for o in rep.obligations:
+            if o["status"] == "refuted":
+                o["status"] = "unknown"
+                o["reason"] = f"contract of role {contract.role} on a function matched by data flow: " + (o.get("reason") or "")
+    if getattr(contract, "role", "") in DRIVERS:
         # the drivers' loops are cut by invariants that this pack GUESSES from the roles of the locals (output buffer, counters,
         # chaining block): a VC that fails may only mean that the guessed invariant does not fit a restructured loop.  Such a
         # model is no counterexample to the property: `unknown`, and the native replayer (differential runs of all four
@@ -1136,7 +1336,7 @@ def install_site(repo, tier):
                 v = data.get(d) if data is not None else None
                 if data is None or (isinstance(v, VFunc) and v.how == "ext" and str(v.a).startswith("pypdf-stub")):
                     stubs.append(f"{mname}.{d}")
-                elif not (isinstance(v, VFunc) and v.how == "repo" and v.a == AES and v.b == d):
+                elif not (isinstance(v, VFunc) and v.how == "repo" and v.a == AES and v.b == roles_of(repo)[d][0]):
                     (wrong if isinstance(v, VFunc) and v.how in ("repo", "closure") else vague).append(f"{mname}.{d} = {v!r}"[:120])
             v = data.get("CryptAES") if data is not None else None
             if data is not None and not (isinstance(v, VRef) and v.ref == cls_ref):
@@ -1173,7 +1373,7 @@ def chunks_iteration(repo, tier):
     DATA = M.p_symbytes(desc="data: bytes of any block-aligned length")
 
     def inv(lc):
-        n, a = M.arr_of(lc.entry.lookup("data"))
+        n, a = M.arr_of(param(lc, "data"))
         if lc.extra.get("phase") == "init":
             return lc.seq.length == n / 16             # the loop runs len/16 times
         if lc.extra.get("phase") != "preserve":
@@ -1226,7 +1426,7 @@ def cache_policy(repo, tier):
                 q = owner.get(id(n), "<module>")
                 if rel == AES and q == "<module>" and isinstance(n, ast.Name) and isinstance(n.ctx, ast.Store):
                     continue        # the module-level definition
-                if rel == AES and q == "_get_round_keys":
+                if rel == AES and q == roles_of(repo)["_get_round_keys"][0]:
                     continue
                 uses.append(f"{rel.split('/')[-1]}:{n.lineno} in {q}")
     ob = ground_obligation("C20/_pypdf_aes_fallback.py::_ROUND_KEY_CACHE/policy#only-_get_round_keys-touches-the-cache", not uses,
